@@ -105,42 +105,48 @@ def run(ctx):
     cfg = ctx.cfg(v)
     raises = [x for x in cfg.nodes if x.kind == 'stmt' and
               isinstance(x.ast, ast.Raise)]
-    sch = None
-    for x in raises:
-        g = cfg.guards(x)
-        if g and 'scheme' in norm(g[0][0]):
-            sch = (x, g[0])
-    ok = False
-    if sch:
-        t, pol, _gn = sch[1]
-        if isinstance(t, ast.Compare) and isinstance(t.ops[0], ast.NotIn) \
-                and pol:
-            try:
-                allowed = set(prog.eval_const(v.module, t.comparators[0]))
-            except NotConst:
-                allowed = None
-            ok = allowed is not None and allowed <= {'http', 'https'} and \
-                bool(allowed)
-    r2.check(ok, ctx.construct(v, extra='scheme'),
-             'scheme is not tested against a constant subset of '
-             '{http, https} with a raise', ctx.loc(v))
     gai = U.calls_in(cfg, 'getaddrinfo')
     if not gai:
         raise AnalysisError('C19.R2: getaddrinfo call lost')
-    r2.check(sch is not None and any(
-        t is sch[1][0] and pol is False
-        for (t, pol, _g) in cfg.guards(gai[0][0])),
+    gn = gai[0][0]
+
+    def scheme_sets(node, truth):
+        out = []
+        for bnd in U.guard_match(cfg, node, '__p.scheme in __set', truth):
+            try:
+                out.append(set(prog.eval_const(v.module, bnd['__set'])))
+            except NotConst:
+                out.append(None)
+        return out
+    ok = False
+    for x in raises:
+        for allowed in scheme_sets(x, False):
+            ok = ok or (allowed is not None and bool(allowed) and
+                        allowed <= {'http', 'https'})
+    r2.check(ok, ctx.construct(v, extra='scheme'),
+             'scheme is not tested against a constant subset of '
+             '{http, https} with a raise', ctx.loc(v))
+    r2.check(any(a is not None and bool(a) and a <= {'http', 'https'}
+                 for a in scheme_sets(gn, True)),
              ctx.construct(v, extra='scheme before resolution'),
-             'the scheme test does not precede name resolution', ctx.loc(v))
-    host_raise = any('not host' in norm(g[0][0]) for x in raises
-                     for g in [cfg.guards(x)] if g)
+             'name resolution is reachable for a scheme outside '
+             '{http, https}', ctx.loc(v))
+    host_raise = any(U.guarded(cfg, x, 'host', False) for x in raises) and \
+        U.guarded(cfg, gn, 'host', True)
     r2.check(host_raise, ctx.construct(v, extra='host required'),
              'a URL without a host is not refused', ctx.loc(v))
-    allow = any('allowed_hosts' in norm(g[0][0]) and
-                'not in allowed_hosts' in norm(g[0][0])
-                for x in raises for g in [cfg.guards(x)] if g)
-    r2.check(allow, ctx.construct(v, extra='allow-list'),
-             'a configured allow-list is not enforced', ctx.loc(v))
+    allow = any(U.guarded(cfg, x, 'allowed_hosts', True) and
+                U.guarded(cfg, x, 'host in allowed_hosts', False) and
+                not cfg.paths_between(gn, x)
+                for x in raises) and \
+        not U.guarded(cfg, gn, 'host in allowed_hosts', False)
+    noacc = not any(x.kind == 'stmt' and isinstance(x.ast, ast.Return) and
+                    U.guard_match(cfg, x, '___ in allowed_hosts', True)
+                    for x in cfg.nodes)
+    r2.check(allow and noacc, ctx.construct(v, extra='allow-list'),
+             'a configured allow-list is not enforced as an additional '
+             'restriction (unlisted host refused, listed host still checked)',
+             ctx.loc(v))
     # loops: addr_infos x denied, only raise leaves early
     loops = [x for x in own_nodes(v.node) if isinstance(x, ast.For)]
     outer = [x for x in loops if dotted(x.iter) == 'addr_infos']
@@ -157,8 +163,10 @@ def run(ctx):
     if inner:
         memb = [y for y in ast.walk(inner[0]) if isinstance(y, ast.Compare)
                 and isinstance(y.ops[0], ast.In)]
-        r2.check(bool(memb) and any(isinstance(z, ast.Raise)
-                                    for z in ast.walk(inner[0])),
+        ivar = dotted(inner[0].target)
+        r2.check(bool(memb) and any(
+            U.guard_match(cfg, x, '__a in %s' % ivar, True)
+            for x in raises if ivar),
                  ctx.construct(v, extra='membership => raise'),
                  'membership of an address in a denied network does not '
                  'raise', ctx.loc(v))
@@ -203,6 +211,19 @@ def run(ctx):
                       z.attr == 'ipv4_mapped' for z in ast.walk(y.value))]
         okm = bool(unwrap) and bool(rebind) and \
             rebind[0].lineno < inner[0].lineno
+        if okm:
+            # the re-binding happens exactly when a mapped address exists
+            pres = []
+            for a_, t_ in U.guard_atoms(cfg, cfg.stmt_node(rebind[0])):
+                if 'ipv4_mapped' not in norm(a_):
+                    continue
+                if isinstance(a_, ast.Compare) and \
+                        isinstance(a_.ops[0], ast.Is) and \
+                        norm(a_.comparators[0]) == 'None':
+                    pres.append(not t_)
+                else:
+                    pres.append(t_)
+            okm = bool(pres) and all(pres)
         memb = [y for y in ast.walk(inner[0]) if isinstance(y, ast.Compare)
                 and isinstance(y.ops[0], ast.In)]
         okc = bool(memb) and dotted(memb[0].left) == var
